@@ -974,6 +974,7 @@ void h_cmd_stream(void)
 #else
 #if H_UID_CASE == 0
 	g_q.name[0] = '0';
+	g_unpack_ret = nondet_int();
 #else
 	{ char c = (char)nondet_int(); __CPROVER_assume((c >= '1' && c <= '9') || (c >= 'a' && c <= 'f') || (c >= 'A' && c <= 'F')); g_q.name[0] = c;
 	  uid = c <= '9' ? c - '0' : (c >= 'a' ? c - 'a' + 10 : c - 'A' + 10); }
@@ -1008,6 +1009,11 @@ void h_cmd_stream(void)
 		__CPROVER_assert(g_in_cpy_calls <= 1, "at most one append per query");
 		__CPROVER_assert(g_in_cpy_calls == 0 || (auth && g_in_cpy_src == g_unp_buf && g_in_cpy_off == (size_t)base && g_in_cpy_n == (size_t)want), "the appended bytes are the decoder's output, copied to the fill level, cut to the room left");
 		__CPROVER_assert(g_full_calls == 1 || slot.inpacket.len == (g_in_cpy_calls ? base + want : slot.inpacket.seqno != s0.in_seq ? 0 : s0.in_len), "the fill level advances by exactly the bytes appended");
+#if H_UID_CASE == 0
+		/* second vacuity guard: the append path itself is exercised by this group */
+		__CPROVER_assert(g_in_cpy_calls == 0, "VERIF_REACH: the upstream append is reachable (must fail)");
+		__CPROVER_assert(g_full_calls == 0, "VERIF_REACH: the delivery of a complete packet is reachable (must fail)");
+#endif
 	}
 #else
 	__CPROVER_assert(g_in_cpy_calls == 0, "a ping appends nothing upstream");
